@@ -132,7 +132,7 @@ func run(c kvh.Case) (flags, pbt.Info, error) {
 			return true
 		}
 		n := t.size()
-		if !(force || n <= 64 || step%16 == 0) {
+		if !(force || n <= 64 || step%16 == 0 && n <= 4096 || step%512 == 0) {
 			return true
 		}
 		kb, vb := *t.kcalls, *t.vcalls
@@ -308,6 +308,28 @@ func check(c kvh.Case) (pbt.Info, error) {
 	return info, err
 }
 
+// genWideFill: B-trees of orders beyond 128 filled until an inner node has well over
+// 128 children (ascending, descending or strided keys: leaves end up about half
+// full), then drained from one end or the other.
+func genWideFill(t *rapid.T) kvh.Case {
+	c := kvh.Case{Kind: kvh.BTree, Cmp: []string{dom.Nat, dom.Rev, dom.Big32}[rapid.IntRange(0, 2).Draw(t, "cmp")]}
+	c.Order = []int{129, 130, 200, 258}[rapid.IntRange(0, 3).Draw(t, "order")]
+	n := c.Order*c.Order/2 + rapid.IntRange(0, c.Order*c.Order/4).Draw(t, "extra")
+	step := []int{1, -1, 3}[rapid.IntRange(0, 2).Draw(t, "step")]
+	start := 0
+	if step < 0 {
+		start = n
+	}
+	c.Ops = append(c.Ops, kvh.Op{O: "putrun", K: start, V: 1, N: n, S: step})
+	k := rapid.IntRange(c.Order, n/2).Draw(t, "removals")
+	if rapid.Bool().Draw(t, "from-top") {
+		c.Ops = append(c.Ops, kvh.Op{O: "remrun", K: start + (n-1)*step, N: k, S: -step})
+	} else {
+		c.Ops = append(c.Ops, kvh.Op{O: "remrun", K: start, N: k, S: step})
+	}
+	return c
+}
+
 var orders = []int{3, 4, 5, 6, 7, 8, 9, 16, 32, 33, 64}
 
 func gen(kind string, big bool) func(t *rapid.T) kvh.Case {
@@ -401,6 +423,7 @@ func TestSmallHistories(t *testing.T) {
 		p := kvh.GenParams{Kind: kind, MaxOps: 60, RunMax: 30, Cmps: dom.AllCmps, Ranges: []int{12, 60, 300}, Orders: orders}
 		pbt.Run(t, pbt.Target[kvh.Case]{Name: kind + "/histories", Checks: 15000, Gen: kvh.Gen(p), Check: check})
 	}
+	pbt.Run(t, pbt.Target[kvh.Case]{Name: "btree/wide-order-fill", Checks: 5, Gen: genWideFill, Check: check})
 }
 
 func TestExhaustive(t *testing.T) {
